@@ -63,6 +63,15 @@ def gen_rt(base, name, opts):
         decls.append({"decl": "struct Rec3", "options": {"wrap_python": False},
                       "declarations": [{"decl": "double x"}, {"decl": "int n", "options": {"wrap_fortran": False}}, {"decl": "double y"}]})
         decls += [{"decl": "void use_rec1(Rec1 *r)"}, {"decl": "void use_rec2(Rec2 *r)"}, {"decl": "Rec3 make_rec3(void)"}]
+        # user statements that change the C wrapper's return type (docs/fstatements: return_type, as vectors.yaml does):
+        # the interface must follow the wrapper, whatever the declared result is
+        decls += [{"decl": "int *countValues(int *nvalues +intent(out)) +deref(raw)",
+                   "options": {"C_force_wrapper": True}, "fstatements": {"c": {"return_type": "long", "ret": ["return *nvalues;"]}}},
+                  {"decl": "double *countItems(int *nitems +intent(out)) +dimension(nitems)",
+                   "options": {"C_force_wrapper": True}, "fstatements": {"c": {"return_type": "int", "ret": ["return *nitems;"]}}},
+                  {"decl": "void fillValues(int *values +intent(out)+dimension(3))",
+                   "options": {"C_force_wrapper": True}, "fstatements": {"c": {"return_type": "long", "ret": ["return 3;"]}}}]
+        protos += ["int *countValues(int *nvalues);", "double *countItems(int *nitems);", "void fillValues(int *values);"]
         protos += ["struct Rec1 { " + " ".join("%s f%d;" % (t, i) for i, t in enumerate(mtypes)) + " int arr[3]; char name[8]; double *ptr; };",
                    "typedef struct Rec1 Rec1;",
                    "struct Rec2 { int count; double weight; long total; float ratio; unsigned int flags; short tail; };", "typedef struct Rec2 Rec2;",
